@@ -140,6 +140,31 @@ def main():
         if not (abs(s - e) <= MC.tol(e, O.entropy(y))):
             V.violation(f'large:{nm}:n={n}:c={cflag}:{var}', f'score {s!r} != specified {e!r}', {'family': nm, 'n': n, 'seed': seed, 'variant': var})
     V.count(evaluations=len(req), nontrivial=len(req) * 2 // 3, traces=len(req))
+    # ---- through the batch path (string values -> category codes -> kernel): a column with more distinct values than a
+    # 16-bit code can hold, scored under two injective namings of its values (the second reverses their sort order)
+    from harness import pipe_common as PC
+    nrow = 34000
+    ids = [rng.randrange(33600) for _ in range(nrow)]
+    ids[:33600] = rng.sample(range(33600), 33600)                       # every id at least once
+    lab = [str((i % 7 + (i // 5)) % 2) for i in ids]
+    k7 = [f'k{i % 7}' for i in range(nrow)]
+    frames = {'plain': [f'v{i:06d}' for i in ids], 'reversed': [f'w{(99999 - i):06d}é' for i in ids]}
+    pj = [{'op': 'rank_graph', 'columns': ['wide', 'label', 'k7'], 'frame': {'wide': frames[nm], 'label': lab, 'k7': k7}, 'batches': 1,
+           'args': {'heuristic': hn, 'label_column': 'label', 'target_ranking_only': 'True', 'combination_number_upper_bound': 10 ** 6}}
+          for hn in ('MI-numba-3mr', 'MI-numba-randomized') for nm in ('plain', 'reversed')]
+    pg = PC.pipe_eval(pj, modules=['pipe_ops'])
+    for k in (0, 2):
+        hn = pj[k]['args']['heuristic']
+        if any(r is None or 'ok' not in r for r in pg[k:k + 2]):
+            V.violation(f'raises:pipeline-wide:{hn}', f'mixed_rank_graph failed on a 34000-row batch: {PC.failure_text(pg[k])} / {PC.failure_text(pg[k + 1])}', {'heuristic': hn})
+            continue
+        a = {(x, y): sc for x, y, sc in pg[k]['ok'][0]['trip']}
+        b = {(x, y): sc for x, y, sc in pg[k + 1]['ok'][0]['trip']}
+        for pr in sorted(a):
+            if pr not in b or not (abs(a[pr] - b[pr]) <= 1e-6 * (1 + abs(a[pr]))):
+                V.violation(f'relabel-invariance:pipeline-wide:{hn}:pair={pr}', f'score {a[pr]!r} with the plain value names, {b.get(pr)!r} after an injective renaming of the values of column wide (33600 distinct values in the batch)', {'heuristic': hn, 'seed': seed})
+                break
+    V.count(evaluations=len(pj), nontrivial=len(pj), traces=len(pj))
     V.coverage['exhaustive'] = True
     return V.finish()
 
